@@ -37,6 +37,9 @@ def kind_of(v):
 
 def ite_val(cond, a, b):
     """scalar if-then-else; cond is a z3 Bool"""
+    if not (z3.is_true(cond) or z3.is_false(cond)) and cond.num_args() == 2 \
+            and all(z3.is_int_value(c) for c in cond.children()):
+        cond = z3.simplify(cond)
     if z3.is_true(cond):
         return a
     if z3.is_false(cond):
